@@ -50,6 +50,15 @@ def generate(rng, tier='quick', kind=None, mode='history', **kw):
     cfg['init_failures'] = 0
     cfg['aperture']['jitter_min_sec'] = 0
     cfg['initial'] = list(range(n))
+    if rng.random() < 0.10:
+      # high request rate: get/put events well under a millisecond apart for
+      # several smoothing windows (one short phase, ~10k calls)
+      c = rng.choice([6, 8])
+      n = max(n, 6)
+      cfg.update({'n': n, 'initial': list(range(n))})
+      cfg['aperture'].update({'min_size': 1, 'max_size': rng.choice([8, 2 ** 31])})
+      ops.append({'t': 0.0, 'op': 'steady', 'c': c, 'dur': 3.0, 'svc': 0.002, 'spread': True})
+      return {'world': 'w_bal', 'cfg': cfg, 'ops': ops, 'mode': 'steady'}
     for _ in range(rng.randint(1, 3)):
       c = rng.choice([1, 2, 3, 5, 8, 12, 20])
       svc = max(rng.choice([0.05, 0.2, 0.5]), c * 70.0 / 3000)
